@@ -76,7 +76,7 @@ func drawSync(rt *rapid.T, p *Plan, tier string) *Plan {
 		p.Proto.StateRootInHeader = rapid.Bool().Draw(rt, "rawsrih")
 	}
 	p.Sync = sp
-	p.Election = max(0, rapid.IntRange(0, 6).Draw(rt, "election")-3)
+	p.Election = drawElection(rt)
 	p.Tape = drawTape(rt, 300)
 	return p
 }
